@@ -76,10 +76,13 @@ int libwifi_create_assoc_resp(struct libwifi_assoc_resp *assoc_resp,
     assoc_resp->fixed_parameters.capabilities_information = BYTESWAP16(LIBWIFI_DEFAULT_AP_CAPABS);
     assoc_resp->fixed_parameters.status_code = STATUS_SUCCESS;
 
-    libwifi_set_assoc_resp_channel(assoc_resp, channel);
+    int ret = libwifi_set_assoc_resp_channel(assoc_resp, channel);
+    if (ret != 0) {
+        return ret;
+    }
 
     const unsigned char supported_rates[] = LIBWIFI_DEFAULT_SUPP_RATES;
-    int ret = libwifi_quick_add_tag(&assoc_resp->tags, TAG_SUPP_RATES, supported_rates, sizeof(supported_rates) - 1);
+    ret = libwifi_quick_add_tag(&assoc_resp->tags, TAG_SUPP_RATES, supported_rates, sizeof(supported_rates) - 1);
 
     return ret;
 }
